@@ -268,6 +268,9 @@ def shrink(binp, work, fam, case, budget=12):
             _, O = evaluate(work, fam['corr'], res)
         except Exception:
             break
+        # a candidate that made the HARNESS stumble (a packet on a connection the shortened script no
+        # longer opens) fails for a reason of its own: it is not a smaller instance of this failure
+        O = [i for i in O if 'harness step panicked' not in json.dumps(res[i].get('obs'), default=str)]
         if O:
             cur = cands[O[0]]
             case = res[O[0]]
